@@ -49,6 +49,10 @@ CHECKS["C10"] = dict(technique="property-based testing: reference try-and-increm
                      note="Trusted: reference field/curve arithmetic. The choice between the two roots y is not constrained.",
                      ref="DESIGN.md section 4, C10")
 
+CHECKS["C11"] = dict(technique="model-based (stateful) property-based testing: generated delegation histories with attribute lists constructed from the model pattern; slot-pattern model + pairing-equation validity predicates + decryption round trips after every step; guard slots behind the documented allocations",
+                     note="Trusted: the library's group operations / pairing as lower layer (decided by C01/C05/C06); documented input domain for attribute lists.",
+                     ref="DESIGN.md section 4, C11")
+
 PENDING = {}
 
 
